@@ -241,21 +241,29 @@ def run_diff_case(case):
                 res["violations"].append(("trace:" + p_.split(" (")[0][:60], "reference (mono) %s: %s" % (cmd, p_), {"case": list(case)}))
             depths = DEPTHS_Q if tier == "quick" else [3, 4, 5, 8, 16, 32, 64, 128]
             seeds = [None, 1, 2, 3] if tier == "quick" else [None] + list(range(1, 12))
+            hung = 0
             for depth in depths:
+                if hung >= 2:
+                    break
                 for ps in seeds:
                     tpl.restore()
                     tr = os.path.join(a.root, "trace-%d-%s" % (depth, ps))
                     env = {"SNAPRAID_VERIF_TRACE": tr}
                     if ps is not None:
                         env["SNAPRAID_VERIF_SCHED"] = str(ps * 7919 + idx)
-                    r = a.cmd(cmd, *base, "--test-io-cache", str(depth), shim={"time": T, "log": False}, env=env, timeout=120)
+                    r = a.cmd(cmd, *base, "--test-io-cache", str(depth), shim={"time": T, "log": False}, env=env, timeout=25)
                     rep = {"case": list(case), "cfg": cfg, "cmd": [cmd] + base, "depth": depth, "sched_seed": ps, "scenario": kind}
                     label = "%s io-cache %d sched %s (%s)" % (cmd, depth, ps, kind)
                     res["counters"]["runs"] = res["counters"].get("runs", 0) + 1
                     if r.timeout:
-                        r = a.cmd(cmd, *base, "--test-io-cache", str(depth), shim={"time": T, "log": False}, env=env, timeout=300)
+                        # re-run once with a generous watchdog before calling it a hang
+                        tpl.restore()
+                        r = a.cmd(cmd, *base, "--test-io-cache", str(depth), shim={"time": T, "log": False}, env=env, timeout=90)
                         if r.timeout:
-                            res["violations"].append(("hang:" + cmd, label, rep))
+                            res["violations"].append(("hang:" + cmd, label + " (did not end within 25 s, nor within 90 s when re-run; the fault-free single-thread run takes well under 1 s)", rep))
+                            hung += 1
+                            if hung >= 2:
+                                break
                             continue
                     if r.rc != ref_rc:
                         res["violations"].append(("exit-status-depends-on-schedule:" + cmd, "%s: rc=%s, single-thread rc=%s" % (label, r.rc, ref_rc), rep))
@@ -352,19 +360,25 @@ def run_san_case(case):
         tpl = Template(a)
         nrep = 3 if tier == "quick" else 12
         seen = set()
+        hung_s = 0
         for cmd, base in cmds:
+            if hung_s >= 2:
+                break
             for rep_i in range(nrep):
                 tpl.restore()
                 args = list(base)
                 if cmd != "diff" and cmd != "check":
                     args += ["--test-io-cache", str(rng.choice([3, 4, 8, 32]))]
                 env = {"SNAPRAID_VERIF_SCHED": str(seed * 1000 + idx * 37 + rep_i + 1)}
-                r = a.cmd(cmd, *args, variant=variant, env=env, timeout=300)
+                r = a.cmd(cmd, *args, variant=variant, env=env, timeout=90)
                 res["counters"]["san_runs"] = res["counters"].get("san_runs", 0) + 1
                 res["counters"]["san_runs_" + variant] = res["counters"].get("san_runs_" + variant, 0) + 1
                 rep = {"case": list(case), "cfg": cfg, "cmd": [cmd] + args, "variant": variant, "hostile": hostile}
                 if r.timeout:
-                    res["violations"].append(("hang:" + cmd, "%s under %s did not end" % (cmd, variant), rep))
+                    res["violations"].append(("hang:" + cmd, "%s %s under %s did not end within 90 s" % (cmd, " ".join(args), variant), rep))
+                    hung_s += 1
+                    if hung_s >= 2:
+                        break
                 for s in r.san:
                     k = A.san_key(s)
                     if k in seen:
@@ -391,21 +405,27 @@ def run_term_case(case):
     tpl = None
     try:
         tpl = Template(a)
-        r = a.cmd("sync", "-E", "-Z", shim={})
+        r = a.cmd("sync", "-E", "-Z", "--test-io-cache", "1", shim={}, timeout=60)
         npw = len([e for e in shimlog.parse(r.events) if e.kind == "E" and e.cls == "parity" and e.op == "write"])
         pts = list(range(1, npw + 1))
         if len(pts) > (10 if tier == "quick" else 60):
             pts = sorted(rng.sample(pts, 10 if tier == "quick" else 60))
+        hung_t = 0
         for j in pts:
+            if hung_t >= 2:
+                break
             for depth in (1, 3, 32):
                 tpl.restore()
                 tr = os.path.join(a.root, "trace-term")
                 r = a.cmd("sync", "-E", "-Z", "--test-io-cache", str(depth), shim={"plan": "parity:write:n=%d:sigint" % j},
-                          env={"SNAPRAID_VERIF_TRACE": tr, "SNAPRAID_VERIF_SCHED": str(j + idx)}, timeout=120)
+                          env={"SNAPRAID_VERIF_TRACE": tr, "SNAPRAID_VERIF_SCHED": str(j + idx)}, timeout=40)
                 res["counters"]["sigint_runs"] = res["counters"].get("sigint_runs", 0) + 1
                 rep = {"case": list(case), "cfg": cfg, "sigint_at_parity_write": j, "depth": depth}
                 if r.timeout:
-                    res["violations"].append(("hang:sigint", "sync io-cache %d with SIGINT at parity write %d did not end" % (depth, j), rep))
+                    res["violations"].append(("hang:sigint", "sync io-cache %d with SIGINT at parity write %d did not end within 40 s" % (depth, j), rep))
+                    hung_t += 1
+                    if hung_t >= 2:
+                        break
                     continue
                 pr, st = check_trace(parse_trace(tr))
                 for p_ in pr[:2]:
